@@ -49,10 +49,29 @@ def hist_gen(hists, seed, frac):
 
 
 # ------------------------------------------------------------------------------------------------ order part
-def order_event(tid, base0, steps):
-    """steps: list of dicts (kind: 'kwo'|'po'|'auto'|'ann', names/exc).  Applies every permutation."""
+def order_event(tid, base0, steps, bound=False):
+    """steps: list of dicts (kind: 'kwo'|'po'|'auto'|'ann'|'start'|'end', names).  Applies every permutation; bound: the function is a
+    method (self first, part of every positional-only selection) and what is compared is what an instance's bound method advertises and does."""
     from sigtools import modifiers
-    base = modif.with_meta(base0)
+    base = modif.with_meta(([modif.SELF] if bound else []) + list(base0))
+    if bound and base0 and base0[0]['k'] == 'po':
+        base[0] = dict(base[0], k='po')
+
+    def target(f):
+        if not bound:
+            return f, None
+        inst = type('K', (object,), {'m': f})()
+        return inst.m, inst
+
+    def observe(f):
+        try:
+            t, inst = target(f)
+        except Exception as e:  # noqa
+            return [{'route': 'bind', 'tag': 'other:' + type(e).__name__, 'ps': []}], []
+        calls = modif.call_all(t, base, bound, inst)
+        for c in calls:
+            c['map'].pop('self', None)
+        return modif.routes(t), calls
     perms = []
     for perm in itertools.permutations(range(len(steps))):
         f = modif.make(base)
@@ -60,12 +79,16 @@ def order_event(tid, base0, steps):
         kept = []           # (earlier object, what it advertised when it was made)
         for j in perm:
             s = steps[j]
-            kept.append((f, (modif.routes(f), modif.call_all(f, base, False, None))))
+            kept.append((f, observe(f)))
             try:
                 if s['kind'] == 'kwo':
                     f = modifiers.kwoargs(*s['names'])(f)
                 elif s['kind'] == 'po':
                     f = modifiers.posoargs(*s['names'])(f)
+                elif s['kind'] == 'start':
+                    f = modifiers.kwoargs(start=s['names'][0])(f)
+                elif s['kind'] == 'end':
+                    f = modifiers.posoargs(end=s['names'][0])(f)
                 elif s['kind'] == 'auto':
                     f = modifiers.autokwoargs(exceptions=s['names'])(f) if s['names'] else modifiers.autokwoargs(f)
                 else:
@@ -77,14 +100,13 @@ def order_event(tid, base0, steps):
                 ok = 'other:' + type(e).__name__
                 break
         # deriving a further variant from a kept object must not change what that object advertises (annotate is meant to, and is excluded)
-        stable = all((modif.routes(obj), modif.call_all(obj, base, False, None)) == before for (obj, before), j in zip(kept, perm)
+        stable = all(observe(obj) == before for (obj, before), j in zip(kept, perm)
                      if not any(steps[x]['kind'] == 'ann' for x in perm))
         p = {'order': list(perm), 'applied': ok, 'adv': [], 'calls': [], 'kept_stable': stable}
         if ok == 'ok':
-            p['adv'] = modif.routes(f)
-            p['calls'] = modif.call_all(f, base, False, None)
+            p['adv'], p['calls'] = observe(f)
         perms.append(p)
-    return {'tid': tid, 'op': 'order', 'base': base, 'steps': steps, 'perms': perms, 'case': {'base0': base0, 'steps': steps}}
+    return {'tid': tid, 'op': 'order', 'base': base, 'steps': steps, 'bound': bound, 'perms': perms, 'case': {'base0': base0, 'steps': steps, 'bound': bound}}
 
 
 def order_gen(U, n, seed):
@@ -95,20 +117,29 @@ def order_gen(U, n, seed):
             named = [p['n'] for p in ps if p['k'] in ('po', 'pok', 'kwo')]
             if not named:
                 continue
+            bound = rnd.random() < 0.4
             steps = []
-            for kind in rnd.sample(['kwo', 'po', 'auto', 'ann'], rnd.choice([2, 2, 3])):
-                steps.append({'kind': kind, 'names': rnd.sample(named, rnd.randrange(0 if kind == 'auto' else 1, min(2, len(named)) + 1))})
+            for kind in rnd.sample(['kwo', 'po', 'auto', 'ann', 'start', 'end'], rnd.choice([2, 2, 3])):
+                if kind in ('start', 'end'):
+                    names = [rnd.choice(named)]
+                    if kind == 'end' and bound and rnd.random() < 0.15:
+                        names = ['self']
+                else:
+                    names = rnd.sample(named, rnd.randrange(0 if kind == 'auto' else 1, min(2, len(named)) + 1))
+                    if kind == 'po' and bound:
+                        names = ['self'] + names          # a positional-only selection of a method has to include the instance parameter
+                steps.append({'kind': kind, 'names': names})
             if k % nshards == shard:
-                yield order_event('order/%d' % k, ps, steps)
+                yield order_event('order/%d' % k, ps, steps, bound)
     return gen
 
 
 def describe(e, case):
     if e['op'] == 'history':
         return hist.describe(e, case)
-    key = json.dumps([e['base'], e['steps']], sort_keys=True)
+    key = json.dumps([e['base'], e['steps'], e.get('bound', False)], sort_keys=True)
     nok = sum(1 for p in e['perms'] if p['applied'] == 'ok')
-    return key, False, 'def f%s with %s: %d orders, %d admissible' % (absig.sig_str(e['base']), [(s['kind'], s['names']) for s in e['steps']], len(e['perms']), nok)
+    return key, False, ('method ' if e.get('bound') else '') + 'def f%s with %s: %d orders, %d admissible' % (absig.sig_str(e['base']), [(s['kind'], s['names']) for s in e['steps']], len(e['perms']), nok)
 
 
 def classify(tid, clause, case):
@@ -131,7 +162,7 @@ def run(check, tier, seed, scratch):
     check.cov['histories_generated'] = len(hists)
     # order part: model
     d = scratch.sub('modorder')
-    cfg = tlc.write_cfg(os.path.join(d, 'ModOrder.cfg'), spec='Spec', constants=dict(Names=set('abc'), MaxNamed=3 if not quick else 2, MaxSteps=3), invariants=['OrderIndep', 'TypeOK'])
+    cfg = tlc.write_cfg(os.path.join(d, 'ModOrder.cfg'), spec='Spec', constants=dict(Names=set('abc'), MaxNamed=3 if not quick else 2, MaxSteps=3, RangeForms=True), invariants=['OrderIndep', 'OrderIndepSet', 'TypeOK'])
     r = tlc.run_tlc('ModOrder', cfg, scratch, workers=tlc.NCPU, timeout=2400, xmx='8g')
     check.add_model_run('ModOrder', r)
     if r.invariants_violated:
@@ -142,7 +173,7 @@ def run(check, tier, seed, scratch):
     check.cov['exhaustive'] = False
     check.cov['rule'] = ('histories: %s of the %d histories of %d operations over {bind, call, retrieve on instance, retrieve on class, annotate afterwards, forget, drop+collect} x '
                          '2 instances (class and subclass) generated by TLC from ObjHist, each on 8 kinds of descriptor; orders: %d seeded (base function from the 1972-signature '
-                         'universe, 2-3 of kwoargs/posoargs/autokwoargs/annotate with <=2 names), all permutations applied, admissible ones compared on every route and on the '
+                         'universe, as a function or as a method observed through an instance, 2-3 of kwoargs/posoargs/autokwoargs/annotate with <=2 names and the range forms kwoargs(start=) / posoargs(end=)), all permutations applied, admissible ones compared on every route and on the '
                          'complete call set; distinct by (kind, history) / (base, steps)' % ('a quarter' if quick else 'a seeded 6%', len(hists), 4 if quick else 5, 4000 if quick else 60000))
     check.assumptions += ['reclamation is observed through weakref + gc.collect() on CPython', 'a fresh twin = new classes from the same source, the same number of annotate re-decorations applied, the operation performed once']
 
@@ -155,5 +186,5 @@ def replay(check, case, scratch):
             if 'hist' in c:
                 yield hist.history_event(case['tid'], c['kind'], c['hist'])
             else:
-                yield order_event(case['tid'], c['base0'], c['steps'])
+                yield order_event(case['tid'], c['base0'], c['steps'], c.get('bound', False))
     run_trace_leg(check, scratch, 'replay', gen, None, nshards=1, module='Trace_Hist', describe=describe, classify=classify)
